@@ -167,7 +167,7 @@ impl TrackerChild {
         }
         let exe = std::env::current_exe().unwrap();
         let mut cmd = Command::new(exe);
-        cmd.arg("serve").arg(kind).arg(config.to_string()).stdout(Stdio::piped()).stderr(Stdio::null()).stdin(Stdio::null());
+        cmd.arg("serve").arg(kind).arg(config.to_string()).stdout(Stdio::piped()).stderr(if std::env::var("AQV_DEBUG").is_ok() { Stdio::inherit() } else { Stdio::null() }).stdin(Stdio::null());
         for (k, v) in envs {
             cmd.env(k, v);
         }
@@ -256,6 +256,20 @@ impl TrackerChild {
 }
 
 /// `aqv serve`: run a tracker in this process; prints RUN-RETURNED when `run()` returns
+struct StderrLog;
+impl log::Log for StderrLog {
+    fn enabled(&self, m: &log::Metadata) -> bool {
+        m.target().starts_with("aquatic")
+    }
+    fn log(&self, r: &log::Record) {
+        if self.enabled(r.metadata()) {
+            eprintln!("[{} {}] {}", r.level(), r.target(), r.args());
+        }
+    }
+    fn flush(&self) {}
+}
+static STDERR_LOG: StderrLog = StderrLog;
+
 pub fn serve(args: &[String]) -> ! {
     let kind = args.first().map(|s| s.as_str()).unwrap_or("");
     let json = args.get(1).map(|s| s.as_str()).unwrap_or("{}");
@@ -267,6 +281,10 @@ pub fn serve(args: &[String]) -> ! {
         }
     }
     crate::fault::install_from_env();
+    if std::env::var("AQV_DEBUG").is_ok() {
+        let _ = log::set_logger(&STDERR_LOG);
+        log::set_max_level(log::LevelFilter::Debug);
+    }
     if std::env::var("AQV_WATCH_RELOADS").is_ok() {
         std::thread::spawn(|| {
             let mut last = 0;
@@ -471,6 +489,9 @@ impl WsConn {
             None => {
                 let r = TcpStream::connect_timeout(&addr, Duration::from_secs(3));
                 note_connect(r.is_ok());
+                if let (Err(e), true) = (&r, std::env::var("AQV_DEBUG").is_ok()) {
+                    eprintln!("tcp connect to {} failed: {}", addr, e);
+                }
                 r.ok()?
             }
             Some(ip) => {
@@ -484,8 +505,15 @@ impl WsConn {
         s.set_nodelay(true).ok();
         s.set_read_timeout(Some(Duration::from_secs(5))).ok();
         let url = format!("ws://{}/", addr);
-        let (ws, _) = tungstenite::client(url, s).ok()?;
-        Some(WsConn { ws })
+        match tungstenite::client(url, s) {
+            Ok((ws, _)) => Some(WsConn { ws }),
+            Err(e) => {
+                if std::env::var("AQV_DEBUG").is_ok() {
+                    eprintln!("ws handshake with {} failed: {}", addr, e);
+                }
+                None
+            }
+        }
     }
 
     pub fn send_text(&mut self, t: String) -> bool {
